@@ -7,8 +7,9 @@ RR_SCENARIOS = ['rock-ridge', 'rr-joliet-remove', 'deep-rr'] + sorted(F.RR_SCRIP
 
 
 def units(tier):
-    us = [Unit(F.Mastered, {'script': s}) for s in RR_SCENARIOS]
-    us += [Unit(F.Reopened, {'script': s}) for s in RR_SCENARIOS]
+    scen = RR_SCENARIOS + F.random_names(tier, ['rr109', 'rr112', 'rr110-joliet', 'rr112-joliet-xa'], 1, 15)
+    us = [Unit(F.Mastered, {'script': s}) for s in scen]
+    us += [Unit(F.Reopened, {'script': s}) for s in scen]
     for n in (0, 1, 2, 3) if tier == 'quick' else (0, 1, 2, 3, 4, 5):
         us.append(Unit(CE.CEAddEntry, {'n': n}))
         if n:
